@@ -9,7 +9,7 @@ use crate::rng::Rng;
 use crate::sched::{RunSetup, Strategy, MAXT};
 use crate::types::HashKind;
 
-pub const SIM_PROPS: [&str; 13] = ["C01", "C03", "C04", "C05", "C06", "C07", "C08", "C10", "C11", "C12", "C13", "C14", "C18"];
+pub const SIM_PROPS: [&str; 14] = ["C01", "C03", "C04", "C05", "C06", "C07", "C08", "C10", "C11", "C12", "C13", "C14", "C15", "C18"];
 
 pub struct Plan {
     pub program: Program,
@@ -18,7 +18,7 @@ pub struct Plan {
 }
 
 pub fn implemented(prop: &str) -> bool {
-    SIM_PROPS.contains(&prop)
+    SIM_PROPS.contains(&prop) || prop == "C02"
 }
 
 pub fn gencfg(prop: &str, tier: &str, rng: &mut Rng) -> GenCfg {
@@ -139,6 +139,15 @@ pub fn gencfg(prop: &str, tier: &str, rng: &mut Rng) -> GenCfg {
             g.swarm = false;
             g.allow_set = false;
             g.hot_keys = (1, 4);
+            g.shapes = vec![Shape::Plain, Shape::AtThreshold, Shape::Tree, Shape::Tree, Shape::Tree, Shape::TreeShrunk, Shape::AlmostTree, Shape::TreeAtThreshold];
+        }
+        "C15" => {
+            g.mix = everything;
+            g.mix.collect = 0;
+            g.mix.len = 0;
+            g.mix.reserve = 1;
+            g.allow_set = true;
+            g.hold_guard = 40;
         }
         "C14" => {
             g.mix = Mix::zero();
@@ -175,6 +184,11 @@ fn base_plan(prop: &str, tier: &str, run_seed: u64) -> Plan {
     let mut opts = ExecOpts::default();
     if prop == "C06" {
         opts.lookup_cost = true;
+    }
+    let mut setup = setup;
+    if prop == "C15" {
+        opts.log_reads = true;
+        setup.log_access = true;
     }
     Plan { program, setup, opts }
 }
@@ -457,9 +471,26 @@ pub fn judge(prop: &str, p: &Program, r: &RunResult, opts: &ExecOpts, js: &mut J
         }
         "C13" => {
             out.extend(run_lin(p, r, js));
+            for e in &r.outcome.events {
+                if e.ev == flurry::verif::Ev::RetainCompareFailed {
+                    js.bump(if e.a == 1 { "retain_skipped_replaced_value_in_tree_bin" } else { "retain_skipped_replaced_value_in_list_bin" }, 1);
+                }
+            }
         }
         "C14" => {
             out.extend(oracle::no_growth_on_removal(p, r));
+        }
+        "C15" => {
+            let mut hs = oracle::HbStats::default();
+            out.extend(oracle::happens_before(r, &mut hs));
+            js.bump("cross_thread_payload_reads_checked", hs.cross_thread_reads);
+            js.bump("cross_thread_reads_of_clones_made_by_a_third_thread", hs.reads_of_map_made_clones);
+            js.bump("same_thread_payload_reads", hs.same_thread_reads);
+            js.bump("reads_of_prepopulated_payloads", hs.prepop_reads);
+            js.bump("acquire_edges_taken", hs.acquire_edges);
+            js.bump("lock_edges_taken", hs.lock_edges);
+            js.bump("release_stores", hs.release_stores);
+            js.bump("relaxed_stores", hs.relaxed_stores);
         }
         "C18" => {
             out.extend(run_lin(p, r, js));
@@ -473,6 +504,8 @@ pub fn judge(prop: &str, p: &Program, r: &RunResult, opts: &ExecOpts, js: &mut J
 
 pub fn runs_for(prop: &str, tier: &str) -> u64 {
     let quick = match prop {
+        "C02" => 150_000,
+        "C15" => 150_000,
         "C12" => 3_000,
         "C18" => 20_000,
         _ => 400_000,
@@ -506,6 +539,7 @@ pub fn probe_relevant(_prop: &str, i: usize) -> bool {
 pub fn rule_text(prop: &str) -> String {
     let common = "one evaluation = one simulated run: a program (configuration + per-thread operation lists) and a schedule/fault plan, all derived from (VERIF_SEED, run index); non-trivial = at least one context switch was forced inside an operation (between two seams of flurry); distinct = distinct fingerprint of the (clock, chosen thread) sequence of all context switches, counted as a set across all workers";
     match prop {
+        "C02" => "one evaluation = one generated single-client program (1-90 operations from the whole public surface of HashMap/HashSet over 1-40 keys, a hash function, an initial capacity, a collector batch size, a facade choice per operation) executed step by step against BTreeMap/BTreeSet with full-content comparison after every step; there is no schedule in this property; non-trivial = at least 3 operations; distinct = distinct program text".to_string(),
         "C12" => format!("{}; enumeration: for every generated (state, writer operations, reader operations) scenario the writer is first run alone to count its N decision points, then one run per i in 1..=N stalls it for ever at its i-th point and runs the reader alone", common),
         "C18" => format!("{}; enumeration: for every generated scenario a dry run counts the c callback invocations, then one run per i in 1..=c makes the i-th invocation panic", common),
         _ => common.to_string(),
@@ -521,8 +555,11 @@ pub fn assumptions(_prop: &str) -> Vec<String> {
     ]
 }
 
-pub fn special_check(_prop: &str, _tier: &str) -> Option<i32> {
-    None
+pub fn special_check(prop: &str, tier: &str) -> Option<i32> {
+    match prop {
+        "C09" => Some(crate::c09::check(tier)),
+        _ => None,
+    }
 }
 
 pub fn extra_stats(_prop: &str, _p: &Program, _r: &RunResult, _agg: &mut Agg) {}
